@@ -6,7 +6,9 @@ SPEC = dict(
           "built with PairsBuilder (one rule per operator, one for operands; token i spans byte i, so a callback identifies the exact token it "
           "was handed). Per case the monitor builds the tree through the map_primary/map_prefix/map_postfix/map_infix callbacks of "
           "PrattParser (`.op(a | b | ..)` per level), of ConstPrattParser::new_const with N = number of operators (random part, 1 table in 4: "
-          "additionally N padded with operators that never occur; 4 tables of the exhaustive family: additionally a `static` built with "
+          "additionally N padded with operators that never occur; 1 table in 5: additionally PrattParser and ConstPrattParser built from the "
+          "same table written with 1-3 of its rules declared a second time earlier - lower level or earlier in the level, other kind - and judged "
+          "only against each other; PrecClimber on every third table through PrecClimber::new_const with shuffled entries; 4 tables of the exhaustive family: additionally a `static` built with "
           "pratt_precedence! / a const array), and - on infix-only tables with one associativity per level - of the deprecated "
           "PrecClimber::climb, each under catch_unwind. Judged per parser: callbacks received the sequence's own pairs; in-order leaves are "
           "operand 0,1,2,..; every operator TOKEN occurs exactly once, in a node of its own kind; the tree equals the tree of an "
@@ -37,7 +39,7 @@ SPEC = dict(
         "equal powers: an incoming operator of left power p does not take an operand away from a stacked operator of right power p (this is what makes `a - b - c` left-grouped); for mixed associativity inside a level it gives `(a L b) R c` and `a R (b L c)`",
         "a prefix operator of low precedence swallows a following higher-precedence infix (`-a^b` = -(a^b)) also when it is the right operand of a tighter infix (`a * -b + c` = a * (-(b + c)) when - is below +), because the statement compares the incoming operator only with the operator on top of the stack",
         "ConstPrattParser with extra operators that never occur in the sequence (padding) is taken to be 'the same table'",
-        "an operator rule appears in exactly one level with one kind; tables naming a rule twice are not generated",
+        "in the tables judged against the shunting-yard an operator rule appears in exactly one level with one kind; for tables naming a rule twice the statement does not say which declaration counts, so there only `ConstPrattParser gives the same tree as PrattParser for the same table` is demanded (agreement with the last-declaration reading is counted, not judged)",
         "PrecClimber is judged only on infix-only tables whose levels each have a single associativity",
         "non-termination of a parser cannot be judged in-process: the case is journaled before it runs and left to the driver's watchdog (inconclusive)",
     ],
